@@ -228,4 +228,109 @@ class C05b(Obligation):
         ctx.check(out.value == comp, 'the result is the connected component of the start token')
 
 
-OBLIGATIONS = [C05a, C05b, C05f, C05g]
+from jedi.inference.names import AbstractTreeName  # noqa: E402
+from obligations.c06 import Op  # noqa: E402
+
+
+class C05h(Obligation):
+    id = 'C05.h'
+    title = 'in f(kw=value) only the keyword TOKEN is resolved to the parameter; a value spelled the same is an ordinary name'
+    pattern = 'P3 (inference of the callee is a recording stub; spelling of keyword and value symbolic)'
+    assumptions = ('an argument node "kw = value" where value is a bare name; their spellings are symbolic (may coincide); '
+                   'the asked token is the keyword or the value (symbolic)',)
+
+    def scenario(self, ctx, cfg):
+        kw_spelling = ctx.oneof('keyword_spelling', ('width', 'w'))
+        val_spelling = ctx.oneof('value_spelling', ('width', 'w'))
+        ask_value = ctx.flag('asked_token_is_the_value')
+        ctx.int('unused')
+        kw = Obj(value=kw_spelling, type='name', tag='keyword-token', get_definition=lambda import_name_always=False: None)
+        val = Obj(value=val_spelling, type='name', tag='value-token', get_definition=lambda import_name_always=False: None,
+                  search_ancestor=lambda *types: None, start_pos=(1, 10))
+        argument = Obj(type='argument', children=[kw, Op('='), val])
+        kw.parent = argument
+        val.parent = argument
+        arglist = Obj(type='arglist', children=[argument])
+        argument.parent = arglist
+        trailer = Obj(type='trailer', children=[Op('('), arglist, Op(')')])
+        arglist.parent = trailer
+        callee = Obj(type='name', value='f')
+        atom_expr = Obj(type='atom_expr', children=[callee, trailer])
+        trailer.parent = atom_expr
+        inferred = []
+        param = Obj(string_name=kw_spelling, tag='PARAM')
+        sig = Obj(get_param_names=lambda: [param])
+        value = Obj(get_signatures=lambda: [sig])
+        context = Obj(infer_node=lambda node: inferred.append(node) or [value])
+        import jedi.inference.imports as ji
+        ctx.patch(ji, 'follow_error_node_imports_if_possible', lambda context, name: None)
+        n = AbstractTreeName.__new__(AbstractTreeName)
+        n._pysym_holder = True
+        n.parent_context = context
+        n.tree_name = val if ask_value else kw
+        ctx.patch(AbstractTreeName, 'start_pos', (1, 0))
+        ctx.force(AbstractTreeName.goto)
+        stack_lookup = []
+        context.goto = lambda name, position=None: stack_lookup.append(name) or ['NAME-LOOKUP']
+        out = ctx.call(n.goto)
+        ctx.check(out.exc is None, 'never raises')
+        if out.exc is not None:
+            return
+        if ask_value:
+            ctx.check(out.value == ['NAME-LOOKUP'] and len(inferred) == 0,
+                      'the value token is looked up as a variable, never as the parameter')
+        else:
+            ctx.check(list(out.value) == [param], 'the keyword token resolves to the parameter of the callee')
+
+
+class ModCtx:
+    def __init__(self, tag, path):
+        self.tag = tag
+        self._path = path
+        self.tree_node = Obj(get_used_names=lambda: {})
+
+    def py__file__(self):
+        return self._path
+
+    def __repr__(self):
+        return self.tag
+
+
+class C05i(Obligation):
+    id = 'C05.i'
+    title = 'references: every defining module INSIDE the project (at any depth) takes part in the search'
+    pattern = 'P3 (defining names come from stubs in modules at symbolic depths below / outside the project)'
+    assumptions = ('the definitions found by goto live in up to 2 other modules, each d<=3 directories below the project '
+                   'root or outside the project (symbolic); the text search over the project is a recording stub',)
+
+    def scenario(self, ctx, cfg):
+        import pathlib
+        project = pathlib.Path('/home/proj')
+        mods = []
+        for i in range(2):
+            where = ctx.choice('module%d_depth' % i, 5)        # 0..3 = depth below the project, 4 = outside
+            sub = ['d%d' % k for k in range(where)] if where < 4 else None
+            path = project.joinpath(*(sub + ['m%d.py' % i])) if sub is not None else pathlib.Path('/elsewhere/m%d.py' % i)
+            mods.append((ModCtx('module%d' % i, path), where < 4))
+        ctx.int('unused')
+        inf = Obj(flow_analysis_enabled=True, project=Obj(path=project))
+        start_module = ModCtx('start', project / 'start.py')
+        start_module.inference_state = inf
+        names = [Obj(tree_name=Obj(tag='def%d' % i), api_type='statement',
+                     get_root_context=lambda m=m: m) for i, (m, inside) in enumerate(mods)]
+        searched = []
+        ctx.patch(jrefs, '_find_defining_names', lambda mc, t: list(names))
+        ctx.patch(jrefs, 'get_module_contexts_containing_name',
+                  lambda state, module_contexts, name: searched.extend(module_contexts) or [])
+        ctx.force(jrefs.find_references)
+        out = ctx.call(lambda: list(jrefs.find_references(start_module, Obj(value='x'), only_in_module=False)))
+        ctx.check(out.exc is None, 'never raises')
+        if out.exc is not None:
+            return
+        ctx.check(searched[0] is start_module, 'the module of the cursor is searched')
+        for m, inside in mods:
+            ctx.check((m in searched) == inside,
+                      'a defining module takes part in the search iff it lies inside the project (any depth)')
+
+
+OBLIGATIONS = [C05a, C05b, C05f, C05g, C05h, C05i]
